@@ -333,63 +333,134 @@ type c23Run struct {
 	hdCalls  int      // client HandleData calls made so far
 	srvTPSet bool
 	srvTP    []byte
-	needCTP  bool // the client asked for transport parameters (QUICTransportParametersRequired)
+	pump     string // drain (default) | each | rand
+	noDrain  bool   // non-draining pump: API calls are recorded bare, NextEvent calls are their own entries
+	cEmpty   bool   // the client's last NextEvent returned QUICNoEvent and nothing was fed to it since
+	sEmpty   bool   // same for the server
+	cliWrote [4]int // bytes returned by the client's NextEvent as WriteData, per level
+	srvGot   [4]int // bytes the server's HandleData accepted, per level
+	srvWrote [4]int // bytes returned by the server's NextEvent as WriteData, per level
+	cliGot   [4]int // bytes the client's HandleData accepted (returned nil), per level
+	needCTP  bool   // the client asked for transport parameters (QUICTransportParametersRequired)
 	injected bool // the scheduled injection was actually applied
+}
+
+// onClientEvent applies the pump's reaction to one client event and returns its rendering.
+func (p *c23Run) onClientEvent(e tls.QUICEvent) string {
+	switch e.Kind {
+	case tls.QUICWriteData:
+		d := append([]byte(nil), e.Data...)
+		p.toServer = append(p.toServer, c23Pending{e.Level, d})
+		if int(e.Level) < len(p.cliWrote) {
+			p.cliWrote[e.Level] += len(d)
+		}
+		if e.Level == tls.QUICEncryptionLevelInitial {
+			p.hellos = append(p.hellos, d)
+		}
+	case tls.QUICTransportParameters:
+		p.cliTP = append(p.cliTP, append([]byte(nil), e.Data...))
+	case tls.QUICTransportParametersRequired:
+		p.needCTP = true
+	}
+	return c23EvStr(e)
+}
+
+// nextClient is one NextEvent call under the deadline. kind = "timeout" / "panic" / "N" / the event.
+func (p *c23Run) nextClient() (rendered string, none bool) {
+	var e tls.QUICEvent
+	_, to, pn := deadlineCall(func() error { e = p.cli.NextEvent(); return nil })
+	if to {
+		p.hung = true
+		return "timeout", true
+	}
+	if pn != "" {
+		return "panic", true
+	}
+	if e.Kind == tls.QUICNoEvent {
+		return "", true
+	}
+	return p.onClientEvent(e), false
 }
 
 // drainClient reads NextEvent until QUICNoEvent (bounded) and returns the rendered events.
 func (p *c23Run) drainClient() []string {
 	var evs []string
 	for i := 0; i < 64; i++ {
-		var e tls.QUICEvent
-		_, to, pn := deadlineCall(func() error { e = p.cli.NextEvent(); return nil })
-		if to {
-			evs = append(evs, "timeout")
-			p.hung = true
-			return evs
-		}
-		if pn != "" {
-			evs = append(evs, "panic")
-			return evs
-		}
-		if e.Kind == tls.QUICNoEvent {
-			return evs
-		}
-		evs = append(evs, c23EvStr(e))
-		switch e.Kind {
-		case tls.QUICWriteData:
-			d := append([]byte(nil), e.Data...)
-			p.toServer = append(p.toServer, c23Pending{e.Level, d})
-			if e.Level == tls.QUICEncryptionLevelInitial {
-				p.hellos = append(p.hellos, d)
+		r, none := p.nextClient()
+		if none {
+			if r != "" {
+				evs = append(evs, r)
 			}
-		case tls.QUICTransportParameters:
-			p.cliTP = append(p.cliTP, append([]byte(nil), e.Data...))
-		case tls.QUICTransportParametersRequired:
-			p.needCTP = true
+			return evs
 		}
+		evs = append(evs, r)
 	}
 	evs = append(evs, "overflow")
 	return evs
 }
 
-func (p *c23Run) drainServer() {
-	for i := 0; i < 64; i++ {
-		e := p.srv.NextEvent()
-		if e.Kind == tls.QUICNoEvent {
+// cNext: one NextEvent recorded as its own history entry (non-draining pumps): `ne:ok[ev]`, `ne:ok[]`
+// for QUICNoEvent. Returns true when an event was returned.
+func (p *c23Run) cNext() bool {
+	if p.hung {
+		return false
+	}
+	r, none := p.nextClient()
+	switch {
+	case r == "timeout":
+		p.hist = append(p.hist, "ne:timeout[]")
+	case r == "panic":
+		p.hist = append(p.hist, "ne:panic[]")
+	default:
+		p.hist = append(p.hist, "ne:ok["+r+"]")
+	}
+	p.cEmpty = none
+	if p.needCTP && !p.hung && p.in["answertpr"] != "0" {
+		p.needCTP = false
+		p.ccall("stp", func() error { p.cli.SetTransportParameters(c23TPs(0).Marshal()); return nil })
+	}
+	return !none
+}
+
+// cNextAll: NextEvent until QUICNoEvent, each call its own history entry.
+func (p *c23Run) cNextAll() {
+	for i := 0; i < 64 && !p.hung; i++ {
+		if !p.cNext() {
 			return
 		}
-		p.sev = append(p.sev, c23EvStr(e))
-		switch e.Kind {
-		case tls.QUICWriteData:
-			d := append([]byte(nil), e.Data...)
-			p.toClient = append(p.toClient, c23Pending{e.Level, d})
-			if e.Level == tls.QUICEncryptionLevelInitial {
-				p.srvInit = append(p.srvInit, d)
-			}
-		case tls.QUICTransportParametersRequired:
-			p.srv.SetTransportParameters(p.srvTP)
-			p.srvTPSet = true
+	}
+}
+
+// nextServer is one server NextEvent; returns false on QUICNoEvent.
+func (p *c23Run) nextServer() bool {
+	e := p.srv.NextEvent()
+	p.sEmpty = e.Kind == tls.QUICNoEvent
+	if e.Kind == tls.QUICNoEvent {
+		return false
+	}
+	p.sev = append(p.sev, c23EvStr(e))
+	switch e.Kind {
+	case tls.QUICWriteData:
+		d := append([]byte(nil), e.Data...)
+		p.toClient = append(p.toClient, c23Pending{e.Level, d})
+		if int(e.Level) < len(p.srvWrote) {
+			p.srvWrote[e.Level] += len(d)
+		}
+		if e.Level == tls.QUICEncryptionLevelInitial {
+			p.srvInit = append(p.srvInit, d)
+		}
+	case tls.QUICTransportParametersRequired:
+		p.srv.SetTransportParameters(p.srvTP)
+		p.srvTPSet = true
+		p.sEmpty = false
+	}
+	return true
+}
+
+func (p *c23Run) drainServer() {
+	for i := 0; i < 64; i++ {
+		if !p.nextServer() {
+			return
 		}
 	}
 }
@@ -414,11 +485,12 @@ func (p *c23Run) ccall(name string, f func() error) (ok bool) {
 		}
 	}
 	var evs []string
-	if !to {
+	p.cEmpty = false
+	if !to && !p.noDrain {
 		evs = p.drainClient()
 	}
 	p.hist = append(p.hist, fmt.Sprintf("%s:%s[%s]", name, res, strings.Join(evs, ";")))
-	if p.needCTP && res == "ok" && !p.hung && p.in["answertpr"] != "0" {
+	if p.needCTP && res == "ok" && !p.hung && !p.noDrain && p.in["answertpr"] != "0" {
 		// the handshake goroutine waits for the client's transport parameters (HelloGolang only)
 		p.needCTP = false
 		return p.ccall("stp", func() error { p.cli.SetTransportParameters(c23TPs(0).Marshal()); return nil })
@@ -517,11 +589,15 @@ func c23Exec(in KV) string {
 	sctx, scancel := context.WithCancel(context.Background())
 	defer scancel()
 
+	p.pump = in["pump"]
+	p.noDrain = p.pump == "each" || p.pump == "rand"
 	startOK := p.ccall("start", func() error { return p.cli.Start(ctx) })
 	if err := p.srv.Start(sctx); err != nil {
 		p.serr = err
 	}
-	p.drainServer()
+	if !p.noDrain {
+		p.drainServer()
+	}
 
 	clientDead := !startOK
 	closed := false
@@ -556,54 +632,137 @@ func c23Exec(in KV) string {
 		}
 		return level, data
 	}
-	for round := 0; round < 40 && !p.hung; round++ {
-		if len(p.toServer) == 0 && len(p.toClient) == 0 {
-			break
+	// deliverServer feeds the oldest pending client flight to the server.
+	deliverServer := func() {
+		pd := p.toServer[0]
+		p.toServer = p.toServer[1:]
+		if p.serr != nil {
+			return
 		}
-		ts := p.toServer
-		p.toServer = nil
-		for _, pd := range ts {
-			if p.serr != nil {
-				break
-			}
-			if err := p.srv.HandleData(pd.level, pd.data); err != nil {
-				p.serr = err
-			}
-			p.drainServer()
+		p.sEmpty = false
+		if err := p.srv.HandleData(pd.level, pd.data); err != nil {
+			p.serr = err
+		} else if int(pd.level) < len(p.srvGot) {
+			p.srvGot[pd.level] += len(pd.data)
 		}
+	}
+	// the QUIC layer would deliver CONNECTION_CLOSE: the client connection is closed
+	closeOnServerError := func() {
 		if p.serr != nil && !closed && !clientDead {
-			// the QUIC layer would deliver CONNECTION_CLOSE: the client connection is closed
 			closed = true
 			p.ccall("close", func() error { return p.cli.Close() })
 			clientDead = true
 		}
-		tc := p.toClient
-		p.toClient = nil
-		for _, pd := range tc {
-			if clientDead || p.hung {
+	}
+	// deliverClientPiece feeds the next piece (at most `chunk` bytes) of the oldest pending server flight.
+	deliverClientPiece := func() {
+		pd := &p.toClient[0]
+		n := len(pd.data)
+		if chunk > 0 && chunk < n {
+			n = chunk
+		}
+		piece := pd.data[:n]
+		pd.data = pd.data[n:]
+		level := pd.level
+		if len(pd.data) == 0 {
+			p.toClient = p.toClient[1:]
+		}
+		if clientDead || p.hung {
+			return
+		}
+		if inject == "close" && at == p.hdCalls {
+			closed = true
+			p.injected = true
+			p.ccall("close", func() error { return p.cli.Close() })
+			clientDead = true
+			return
+		}
+		lv, pc := beforeHD(level, piece)
+		p.hdCalls++
+		if !p.ccall(fmt.Sprintf("hd%d", int(lv)), func() error { return p.cli.HandleData(lv, pc) }) {
+			clientDead = true
+		} else if int(lv) < len(p.cliGot) {
+			p.cliGot[lv] += len(pc)
+		}
+	}
+	switch p.pump {
+	case "each":
+		// forward every event to the peer as soon as NextEvent returns it, alternating sides
+		for step := 0; step < 400 && !p.hung; step++ {
+			progressed := false
+			if !clientDead && p.cNext() {
+				progressed = true
+			}
+			for len(p.toServer) > 0 {
+				deliverServer()
+			}
+			closeOnServerError()
+			if p.nextServer() {
+				progressed = true
+			}
+			for len(p.toClient) > 0 {
+				deliverClientPiece()
+			}
+			if !progressed {
 				break
 			}
-			data := pd.data
-			for len(data) > 0 && !clientDead && !p.hung {
-				n := len(data)
-				if chunk > 0 && chunk < n {
-					n = chunk
-				}
-				piece := data[:n]
-				data = data[n:]
-				if inject == "close" && at == p.hdCalls {
-					closed = true
-					p.injected = true
-					p.ccall("close", func() error { return p.cli.Close() })
-					clientDead = true
-					break
-				}
-				lv, pc := beforeHD(pd.level, piece)
-				p.hdCalls++
-				if !p.ccall(fmt.Sprintf("hd%d", int(lv)), func() error { return p.cli.HandleData(lv, pc) }) {
-					clientDead = true
-				}
+		}
+	case "rand":
+		// random interleaving of NextEvent / HandleData on both sides (flights stay in order)
+		pr := NewRng(in.U64("pseed"))
+		for step := 0; step < 3000 && !p.hung; step++ {
+			var acts []int
+			if !clientDead && !p.cEmpty {
+				acts = append(acts, 0)
 			}
+			if !p.sEmpty {
+				acts = append(acts, 1)
+			}
+			if len(p.toServer) > 0 {
+				acts = append(acts, 2, 2)
+			}
+			if len(p.toClient) > 0 {
+				acts = append(acts, 3, 3)
+			}
+			if len(acts) == 0 {
+				break
+			}
+			switch acts[pr.Intn(len(acts))] {
+			case 0:
+				p.cNext()
+			case 1:
+				p.nextServer()
+			case 2:
+				deliverServer()
+				closeOnServerError()
+			case 3:
+				deliverClientPiece()
+			}
+		}
+	default:
+		for round := 0; round < 40 && !p.hung; round++ {
+			if len(p.toServer) == 0 && len(p.toClient) == 0 {
+				break
+			}
+			for len(p.toServer) > 0 {
+				deliverServer()
+				p.drainServer()
+			}
+			closeOnServerError()
+			for len(p.toClient) > 0 {
+				deliverClientPiece()
+			}
+		}
+	}
+	if p.noDrain && !clientDead {
+		p.cNextAll()
+	}
+	p.drainServer()
+	// calls after the pump: in the non-draining modes each is followed by NextEvent until QUICNoEvent
+	tcall := func(name string, f func() error) {
+		p.ccall(name, f)
+		if p.noDrain {
+			p.cNextAll()
 		}
 	}
 	cdone := false
@@ -618,7 +777,11 @@ func c23Exec(in KV) string {
 		p.drainServer()
 		for _, pd := range p.toClient {
 			lv, d := pd.level, pd.data
-			p.ccall(fmt.Sprintf("hd%d", int(lv)), func() error { return p.cli.HandleData(lv, d) })
+			before := p.cerr
+			tcall(fmt.Sprintf("hd%d", int(lv)), func() error { return p.cli.HandleData(lv, d) })
+			if p.cerr == before && !p.hung && int(lv) < len(p.cliGot) {
+				p.cliGot[lv] += len(d)
+			}
 		}
 		p.toClient = nil
 	}
@@ -628,16 +791,16 @@ func c23Exec(in KV) string {
 		if !cdone {
 			lv = tls.QUICEncryptionLevelInitial
 		}
-		p.ccall(fmt.Sprintf("hd%d", int(lv)), func() error { return p.cli.HandleData(lv, []byte{24, 0, 0, 1, 0}) })
+		tcall(fmt.Sprintf("hd%d", int(lv)), func() error { return p.cli.HandleData(lv, []byte{24, 0, 0, 1, 0}) })
 	case "stp":
-		p.ccall("stp", func() error { p.cli.SetTransportParameters([]byte{9}); return nil })
+		tcall("stp", func() error { p.cli.SetTransportParameters([]byte{9}); return nil })
 	}
 	if !closed || in["post"] == "close2" {
-		p.ccall("close", func() error { return p.cli.Close() })
+		tcall("close", func() error { return p.cli.Close() })
 	}
 	if in["post"] == "hdafterclose" && startOK {
 		lv := tls.QUICEncryptionLevelInitial
-		p.ccall(fmt.Sprintf("hd%d", int(lv)), func() error { return p.cli.HandleData(lv, []byte{2, 0, 0, 0}) })
+		tcall(fmt.Sprintf("hd%d", int(lv)), func() error { return p.cli.HandleData(lv, []byte{2, 0, 0, 0}) })
 	}
 	scancel()
 	sclose := make(chan struct{})
@@ -672,8 +835,26 @@ func c23Exec(in KV) string {
 	if !p.hung {
 		st = p.cli.ConnectionState()
 	}
-	return fmt.Sprintf("apply=%s hist=%s sev=%s cdone=%s sdone=%s inj=%s sids=%s hrr=%d tpn=%d tpeq=%s alpn=%s vers=%04x cerr=%s serr=%s",
-		c23ApplyClass(applyErr), joinList(p.hist), joinList(p.sev), b2i(cdone), b2i(sdone), b2i(p.injected), joinList(sids), hrr, len(p.cliTP), tpeq,
+	// ClientHello messages in the Initial-level byte stream NextEvent returned
+	var stream []byte
+	for _, h := range p.hellos {
+		stream = append(stream, h...)
+	}
+	nch := 0
+	for len(stream) >= 4 {
+		n := int(stream[1])<<16 | int(stream[2])<<8 | int(stream[3])
+		if len(stream) < 4+n {
+			break
+		}
+		if stream[0] == 1 {
+			nch++
+		}
+		stream = stream[4+n:]
+	}
+	lv4 := func(a [4]int) string { return fmt.Sprintf("%d/%d/%d/%d", a[0], a[1], a[2], a[3]) }
+	return fmt.Sprintf("apply=%s hist=%s sev=%s cdone=%s sdone=%s inj=%s sids=%s nch=%d rest=%d cwb=%s sgb=%s swb=%s cgb=%s hrr=%d tpn=%d tpeq=%s alpn=%s vers=%04x cerr=%s serr=%s",
+		c23ApplyClass(applyErr), joinList(p.hist), joinList(p.sev), b2i(cdone), b2i(sdone), b2i(p.injected), joinList(sids), nch, len(stream),
+		lv4(p.cliWrote), lv4(p.srvGot), lv4(p.srvWrote), lv4(p.cliGot), hrr, len(p.cliTP), tpeq,
 		sanitizeOrDash(st.NegotiatedProtocol), st.Version, c23ErrClass(p.cerr), c23ErrClass(p.serr))
 }
 
@@ -704,6 +885,8 @@ func c23ErrClass(err error) string {
 
 type c23Case struct {
 	spec, calpn, salpn, sgroups, inject, gkind, stp, post string
+	pump                                                 string
+	pseed                                                uint64
 	tp, chunk, at, ctp, ticket                           int
 	sni, insecure, s13, apply                            int
 	minver                                               string
@@ -712,7 +895,7 @@ type c23Case struct {
 
 func c23Default(spec string) c23Case {
 	return c23Case{spec: spec, calpn: "h3", salpn: "h3", sgroups: "-", inject: "none", gkind: "type", stp: "early", post: "none",
-		tp: 0, chunk: 0, at: -1, ctp: -1, ticket: 0, sni: 1, insecure: 0, s13: 1, apply: 1, minver: "13", answertpr: 1}
+		tp: 0, chunk: 0, at: -1, ctp: -1, ticket: 0, sni: 1, insecure: 0, s13: 1, apply: 1, minver: "13", answertpr: 1, pump: "drain"}
 }
 
 // c23SpecFacts: the groups and key-share groups the spec offers (inputs of the model's prediction).
@@ -739,8 +922,8 @@ func c23SpecFacts(c c23Case) (cg, cs string) {
 
 func (c c23Case) line() string {
 	cg, cs := c23SpecFacts(c)
-	return fmt.Sprintf("spec=%s tp=%d calpn=%s salpn=%s sgroups=%s sni=%d insecure=%d minver=%s s13=%d apply=%d chunk=%d inject=%s at=%d gkind=%s stp=%s ctp=%d ticket=%d post=%s answertpr=%d cg=%s cs=%s",
-		c.spec, c.tp, c.calpn, c.salpn, c.sgroups, c.sni, c.insecure, c.minver, c.s13, c.apply, c.chunk, c.inject, c.at, c.gkind, c.stp, c.ctp, c.ticket, c.post, c.answertpr, cg, cs)
+	return fmt.Sprintf("spec=%s tp=%d calpn=%s salpn=%s sgroups=%s sni=%d insecure=%d minver=%s s13=%d apply=%d chunk=%d inject=%s at=%d gkind=%s stp=%s ctp=%d ticket=%d post=%s answertpr=%d pump=%s pseed=%d cg=%s cs=%s",
+		c.spec, c.tp, c.calpn, c.salpn, c.sgroups, c.sni, c.insecure, c.minver, c.s13, c.apply, c.chunk, c.inject, c.at, c.gkind, c.stp, c.ctp, c.ticket, c.post, c.answertpr, c.pump, c.pseed, cg, cs)
 }
 
 var c23ServerGroups = []string{"x25519", "p256", "p384", "p521", "mlkem"}
@@ -853,10 +1036,42 @@ func c23Gen(r *Rng, i int, tier string) string {
 			c.sgroups = g
 		}
 		return c.line()
-	case i < 2*n+len(c23Fixed):
-		return c23Fixed[i-2*n]().line()
+	case i < 3*n: // every spec, HelloRetryRequest, every event forwarded to the peer at once
+		c := c23Default(specs[i-2*n])
+		c.tp = (i + 2) % 4
+		c.pump = "each"
+		if g := c23HRRGroup(c, i); g != "" {
+			c.sgroups = g
+		}
+		return c.line()
+	case i < 4*n: // every spec, random interleaving of NextEvent / HandleData on both sides
+		c := c23Default(specs[i-3*n])
+		c.tp = i % 4
+		c.pump, c.pseed = "rand", r.U64()>>1
+		c.chunk = Pick(r, []int{0, 0, 50, 400})
+		if i%2 == 0 {
+			if g := c23HRRGroup(c, i); g != "" {
+				c.sgroups = g
+			}
+		}
+		return c.line()
+	case i < 4*n+len(c23Fixed):
+		c := c23Fixed[i-4*n]()
+		switch (i - 4*n) % 3 {
+		case 1:
+			c.pump = "each"
+		case 2:
+			c.pump, c.pseed = "rand", r.U64()>>1
+		}
+		return c.line()
 	}
 	c := c23Default(Pick(r, specs))
+	switch r.Intn(3) {
+	case 1:
+		c.pump = "each"
+	case 2:
+		c.pump, c.pseed = "rand", r.U64()>>1
+	}
 	c.tp = r.Intn(4)
 	c.chunk = Pick(r, []int{0, 0, 1, 5, 40, 100, 333, 1000})
 	switch r.Intn(4) {
@@ -911,6 +1126,7 @@ func c23Gen(r *Rng, i int, tier string) string {
 
 func init() {
 	register(&Family{Name: "quic_hs", Timeout: 90 * time.Second, Gen: c23Gen, Exec: c23Exec})
+	register(&Family{Name: "quic_queue", Gen: c23QueueGen, Exec: c23QueueExec})
 	// quic_shape: one line; the Lean driver evaluates the discipline predicate on the skeleton that
 	// harness/cmd/gen regenerated from the source and names the failing return path.
 	register(&Family{Name: "quic_shape",
@@ -954,4 +1170,90 @@ func c23GroupNames(gs []tls.CurveID) string {
 		out = append(out, c23GroupName(g))
 	}
 	return joinList(out)
+}
+
+
+// ---------- quic_queue: the event queue alone (verif hook VerifQUICQueue) ----------
+//
+// ops: W<level>:<hex>  quicWriteCryptoData | SW<level> / SR<level>  secret events | P:<hex> transport
+// parameters | D HandshakeDone | N NextEvent.  res: one token per N — the returned event or `-`.
+
+func c23QueueGen(r *Rng, i int, tier string) string {
+	fixed := []string{
+		"W0:01,N,W0:02,N,N",
+		"W0:0102,W0:03,N,N",
+		"W0:01,N,N,W0:02,N,N",
+		"W0:01,SW2,SR2,W2:07,W2:08,N,N,N,W2:09,N,N,N",
+		"W2:aa,N,W2:bb,W2:cc,N,W0:dd,N,N",
+		"N,W3:-,N,W3:05,N,N",
+	}
+	if i < len(fixed) {
+		return "ops=" + fixed[i]
+	}
+	n := 3 + r.Intn(14)
+	var ops []string
+	lastLevel := r.Intn(4)
+	for k := 0; k < n; k++ {
+		switch r.Intn(10) {
+		case 0, 1, 2, 3:
+			l := lastLevel
+			if r.Intn(4) == 0 {
+				l = r.Intn(4)
+			}
+			lastLevel = l
+			ops = append(ops, fmt.Sprintf("W%d:%s", l, hx(r.Bytes(r.Intn(4)))))
+		case 4:
+			ops = append(ops, fmt.Sprintf("S%s%d", Pick(r, []string{"W", "R"}), r.Intn(4)))
+		case 5:
+			if r.Intn(3) == 0 {
+				ops = append(ops, "D")
+			} else {
+				ops = append(ops, "P:"+hx(r.Bytes(r.Intn(3))))
+			}
+		default:
+			ops = append(ops, "N")
+		}
+	}
+	for k := r.Intn(4); k >= 0; k-- {
+		ops = append(ops, "N")
+	}
+	return "ops=" + strings.Join(ops, ",")
+}
+
+func c23QueueExec(in KV) string {
+	q := tls.VerifNewQUICQueue()
+	var res []string
+	for _, op := range splitList(in["ops"]) {
+		switch {
+		case op == "N":
+			e := q.Next()
+			switch e.Kind {
+			case tls.QUICNoEvent:
+				res = append(res, "-")
+			case tls.QUICWriteData:
+				res = append(res, fmt.Sprintf("W%d:%s", int(e.Level), hx(e.Data)))
+			case tls.QUICSetWriteSecret:
+				res = append(res, fmt.Sprintf("SW%d", int(e.Level)))
+			case tls.QUICSetReadSecret:
+				res = append(res, fmt.Sprintf("SR%d", int(e.Level)))
+			case tls.QUICTransportParameters:
+				res = append(res, "P:"+hx(e.Data))
+			case tls.QUICHandshakeDone:
+				res = append(res, "D")
+			default:
+				res = append(res, fmt.Sprintf("K%d", int(e.Kind)))
+			}
+		case op == "D":
+			q.Done()
+		case strings.HasPrefix(op, "P:"):
+			q.Params(unhex(op[2:]))
+		case strings.HasPrefix(op, "SW"), strings.HasPrefix(op, "SR"):
+			q.Secret(op[1] == 'W', tls.QUICEncryptionLevel(int(op[2]-'0')), []byte{0xaa})
+		case strings.HasPrefix(op, "W") && len(op) >= 3:
+			q.Write(tls.QUICEncryptionLevel(int(op[1]-'0')), unhex(op[3:]))
+		default:
+			panic("bad op " + op)
+		}
+	}
+	return "res=" + joinList(res)
 }
